@@ -187,7 +187,7 @@ impl Check for C19 {
         "flag-invariance"
     }
     fn cases(&self, tier: Tier) -> usize {
-        tier.pick(3_000, 80_000)
+        tier.pick(7_000, 80_000)
     }
     fn strategy(&self, _tier: Tier) -> BoxedStrategy<FlagCase> {
         let c = c01::cfg();
